@@ -40,6 +40,7 @@ type pGen struct {
 	features map[string]bool
 	hashBias bool
 	noFail   bool
+	noAssign bool
 	inLoop   int
 }
 
@@ -101,7 +102,7 @@ func (g *pGen) strExpr(d int) []string {
 	case 0:
 		return append(append(g.strExpr(d-1), "+"), g.strExpr(d-1)...)
 	case 1:
-		return append(append(g.strExpr(d-1), "+"), g.intExpr(d-1)...)
+		return append(append(append(g.strExpr(d-1), "+", "("), g.intExpr(d-1)...), ")")
 	case 2:
 		g.features["helper-call"] = true
 		return append(append([]string{pick(g.r, []string{"upcase", "capitalize", "up"}), "("}, g.strExpr(d-1)...), ")")
@@ -143,7 +144,13 @@ func (g *pGen) anyExpr() []string {
 		g.features["array-literal"] = true
 		return append(append(append([]string{"["}, g.intExpr(1)...), ","), append(g.strExpr(1), "]")...)
 	default:
-		return g.cond(1)
+		// an unknown identifier is tolerated only in condition position
+		for {
+			c := g.cond(1)
+			if !strings.Contains(strings.Join(c, " "), "unknownName") {
+				return c
+			}
+		}
 	}
 }
 
@@ -205,7 +212,7 @@ func (g *pGen) stmt(depth int) []pUnit {
 		u := tag("<%", true, append([]string{"let", v, "="}, g.strExpr(2)...)...)
 		g.strs = append(g.strs, v)
 		return []pUnit{u}
-	case k == 7:
+	case k == 7 && !g.noAssign:
 		g.features["assignment"] = true
 		if g.r.Bool() {
 			return []pUnit{tag("<%", true, append([]string{pick(g.r, g.ints), "="}, g.intExpr(1)...)...)}
@@ -218,13 +225,18 @@ func (g *pGen) stmt(depth int) []pUnit {
 		g.features["if"] = true
 		open := pick(g.r, []string{"<%=", "<%=", "<%"})
 		out := []pUnit{tag(open, false, append(append([]string{"if", "("}, g.cond(1)...), ")", "{")...)}
+		// names bound in a branch that may not be taken are not used afterwards
+		saveI, saveS, saveF := g.ints, g.strs, g.fns
+		defer func() { g.ints, g.strs, g.fns = saveI, saveS, saveF }()
 		out = append(out, g.stmts(depth-1, g.r.Range(1, 3))...)
+		g.ints, g.strs, g.fns = saveI, saveS, saveF
 		for e := g.r.Intn(3); e > 0; e-- {
 			g.features["else-if"] = true
 			u := tag("<%", false, append(append([]string{"}", "else", "if", "("}, g.cond(1)...), ")", "{")...)
 			u.glueOK = true
 			out = append(out, u)
 			out = append(out, g.stmts(depth-1, g.r.Range(0, 2))...)
+			g.ints, g.strs, g.fns = saveI, saveS, saveF
 		}
 		if g.r.Bool() {
 			g.features["else"] = true
@@ -269,13 +281,13 @@ func (g *pGen) stmt(depth int) []pUnit {
 		g.features["fn-def"] = true
 		f := g.fresh("fn")
 		out := []pUnit{tag("<%", false, "let", f, "=", "fn", "(", "pa", ",", "pb", ")", "{")}
-		saveI := g.ints
+		saveI, saveS, saveF := g.ints, g.strs, g.fns
 		g.ints = append([]string{"pa", "pb"}, g.ints...)
 		if g.r.Bool() {
 			out = append(out, tag("<%", false, "if", "(", "pa", ">", "pb", ")", "{"), tag("<%", true, append([]string{"return"}, g.intExpr(1)...)...), tag("<%", false, "}"))
 		}
 		out = append(out, tag("<%", true, append([]string{"return"}, g.intExpr(1)...)...))
-		g.ints = saveI
+		g.ints, g.strs, g.fns = saveI, saveS, saveF
 		out = append(out, tag("<%", false, "}"))
 		g.fns = append(g.fns, f)
 		return out
